@@ -24,6 +24,7 @@ import (
 	"github.com/ipfs/go-cid"
 	record "github.com/libp2p/go-libp2p-record"
 	recpb "github.com/libp2p/go-libp2p-record/pb"
+	"github.com/libp2p/go-libp2p/core/network"
 	"github.com/libp2p/go-libp2p/core/peer"
 	ma "github.com/multiformats/go-multiaddr"
 	mh "github.com/multiformats/go-multihash"
@@ -89,16 +90,17 @@ func vC10BigAddrs(i int) [][]byte {
 var vC10JunkAddrs = [][]byte{{0x04, 1, 2}, {0xff, 0xff, 0x03, 1}, {}, {0x06}, []byte("/ip4/1.2.3.4"), {0x35, 0xff, 0xff, 0xff, 0x0f}}
 
 type vC10Scenario struct {
-	Cfg      vNetCfg
-	Op       string
-	LiarFrac float64
-	Count    int // FindProvidersAsync count
-	Deadline time.Duration
+	Cfg       vNetCfg
+	Op        string
+	LiarFrac  float64
+	Count     int // FindProvidersAsync count
+	Deadline  time.Duration
+	Diversity int // > 0: routing-table IP-diversity filter with this per-group limit (the lookup then also filters responses by IP group)
 }
 
 func TestVerif_C10_lookupcap(t *testing.T) {
 	vh.Run(t, vh.Spec{Prop: "C10", Unit: "lookupcap", Quick: 800, Thorough: 30000, CostMs: 25,
-		Rule:    "PRNG networks (N 6-150, K in {1,2,3,5,8,20}, alpha/beta as C01, knowledge full/kbucket) in which 20-90% of the peers lie on FIND_NODE / GET_VALUE / GET_PROVIDERS: closer lists of 300-4000 entries (strangers, known peers, one peer repeated), self only / self first, garbage entries (empty and junk ids, undecodable addresses, 40 x 1 KB address lists for known peers), other-key / keyless / valueless records, provider lists of 300-4000 entries incl. self and strangers; all replies pass marshal+unmarshal; one GetClosestPeers / FindPeer / GetValue / FindProvidersAsync per case in virtual time (10% with a deadline); oracle: the call returns within the virtual budget, no panic, every response event heard <= 2K, a returned value was sent under the requested key, addresses stored for a peer named with a 40 KB address list stay within 8 KiB; non-trivial = at least one response event came from a reply carrying more than 2K closer peers (the cap had something to cut); distinct by (shape, op, liar behaviours, response order)",
+		Rule:    "PRNG networks (N 6-150, K in {1,2,3,5,8,20}, alpha/beta as C01, knowledge full/kbucket) in which 20-90% of the peers lie on FIND_NODE / GET_VALUE / GET_PROVIDERS: closer lists of 300-4000 entries (strangers, known peers, one peer repeated), self only / self first, garbage entries (empty and junk ids, undecodable addresses, 40 x 1 KB address lists for known peers), other-key / keyless / valueless records, provider lists of 300-4000 entries incl. self and strangers; all replies pass marshal+unmarshal; one GetClosestPeers / FindPeer / GetValue / FindProvidersAsync per case in virtual time (10% with a deadline; 20% with the routing-table IP-diversity filter on, which makes the lookup filter responses by IP group as well); oracle: the call returns within the virtual budget, no panic, every response event heard <= 2K, a returned value was sent under the requested key, addresses stored for a peer named with a 40 KB address list stay within 8 KiB; non-trivial = at least one response event came from a reply carrying more than 2K closer peers (the cap had something to cut); distinct by (shape, op, liar behaviours, response order)",
 		Clauses: []string{"operation-returns", "heard-at-most-2k", "value-from-own-key-record", "peerstore-record-bounded", "result-shape"}},
 		func(c *vh.Case) {
 			r := c.R
@@ -117,6 +119,10 @@ func TestVerif_C10_lookupcap(t *testing.T) {
 				sc.Deadline = time.Duration(50+r.Intn(3000)) * time.Millisecond
 			}
 			sc.Count = []int{0, 1, k, 3 * k}[r.Intn(4)]
+			if r.Intn(5) == 0 {
+				sc.Diversity = 2 + r.Intn(3) // every simulated peer and stranger sits in its own /16: the filter admits them all
+			}
+			c.Set("ip_diversity_limit", sc.Diversity)
 			c.Set("N", nPeers)
 			c.Set("K_alpha_beta", []int{k, a, b})
 			c.Set("op", sc.Op)
@@ -128,7 +134,37 @@ func TestVerif_C10_lookupcap(t *testing.T) {
 
 func vC10RunLookupCap(t *testing.T, c *vh.Case, sc vC10Scenario) {
 	r := c.R
-	n := vNewNet(t, c, sc.Cfg)
+	var n *vNet
+	if sc.Diversity > 0 {
+		// as in C01: the table's diversity filter reads a peer's address from its connection, so the seeds are
+		// connected first and added by hand
+		cfg, want, lim := sc.Cfg, sc.Cfg.Seeds, sc.Diversity
+		cfg.Seeds = 0
+		cfg.OptsFn = func(n *vNet) []Option {
+			return []Option{RoutingTablePeerDiversityFilter(NewRTPeerDiversityFilter(n.H, 1000, lim))}
+		}
+		n = vNewNet(t, c, cfg)
+		n.H.RemoteAddrFn = func(p peer.ID) ma.Multiaddr {
+			if sp := n.S.Peer(p); sp != nil && len(sp.Addrs) > 0 {
+				return sp.Addrs[0]
+			}
+			return nil
+		}
+		added := 0
+		for _, i := range r.Perm(cfg.N) {
+			if added >= want {
+				break
+			}
+			n.H.Net.AddConn(n.IDs[i], network.DirOutbound, nil, false)
+			if ok, _ := n.D.routingTable.TryAddPeer(n.IDs[i], true, false); ok {
+				added++
+			} else {
+				n.H.Net.Disconnect(n.IDs[i], false)
+			}
+		}
+	} else {
+		n = vNewNet(t, c, sc.Cfg)
+	}
 	defer n.Close()
 	K := sc.Cfg.K
 	key := fmt.Sprintf("/v/key-%d-%d", c.Idx, r.Int63())
